@@ -139,8 +139,11 @@ func refsOK(dir string, before map[string]bool) bool {
 func prepareHost(dir string) {
 	hx.Must(os.MkdirAll(dir, 0o755))
 	mustGit(dir, "init", "-q", "-b", "main")
-	mustGit(dir, "config", "user.name", "host user")
+	mustGit(dir, "config", "user.name", "Host User <host@example.org>") // the classic mistake: git itself strips the brackets when it commits
 	mustGit(dir, "config", "user.email", "host@example.org")
+	// identities for commits given the way people get them wrong: git cleans them when it writes a commit
+	mustGit(dir, "config", "author.name", "Ann Lee <ann.lee@example.org>")
+	mustGit(dir, "config", "committer.email", "c<d>@example.org")
 	mustGit(dir, "config", "alias.co", "checkout")
 	mustGit(dir, "config", "core.autocrlf", "false")
 	hx.Must(os.WriteFile(filepath.Join(dir, "README.md"), []byte("# host project\n"), 0o644))
